@@ -1,6 +1,6 @@
 from vp.core import Query
 from vp.skel import KIT_RULES
-from props import C01, C04, C07, C08, C13
+from props import C01, C04, C07, C08, C13, _cross
 
 LEVEL = "model_checking"
 UNITS = ["src/sp/transport/tcp/tcp.c", "src/sp/transport/ipc/ipc.c", "src/sp/transport/socket/sockfd.c", "src/core/listener.c", "src/sp/protocol/*/ (receive callbacks)", "src/supplemental/websocket/websocket.c (C16)"]
@@ -36,7 +36,7 @@ def queries(tier):
         if q.name in seen:
             continue
         seen.add(q.name)
-        out.append(q)
+        out.append(_cross.exclude_nonblock_findings(q))
     return out
 
 MANIFEST = {
